@@ -1,0 +1,13 @@
+//go:build verif
+
+package opengraph
+
+import "golang.org/x/net/html"
+
+// VerifFindPrefixes runs findPrefixes for root and returns the prefixes in use for the og,
+// profile and article vocabularies.
+func VerifFindPrefixes(root *html.Node) (string, string, string) {
+	ps := &Parser{prefixes: make(PrefixNameList)}
+	ps.findPrefixes(root)
+	return ps.prefixes[OG], ps.prefixes[Profile], ps.prefixes[Article]
+}
